@@ -2,9 +2,9 @@ package main
 
 import (
 	"fmt"
-	"os"
 	"go/token"
 	"go/types"
+	"os"
 	"sort"
 	"strings"
 
@@ -208,6 +208,7 @@ func ruleSharedFields(c *Check, rule string) {
 	// ---- phase 1: accesses
 	acc := map[sfKey][]sfAccess{}
 	ftype := map[sfKey]types.Type{}
+	nGlobals := map[sfKey]bool{}
 	var funcs []*ssa.Function
 	for _, fn := range P.RepoFuncs() {
 		if !sfInScope(fn) || fn.Blocks == nil {
@@ -216,6 +217,40 @@ func ruleSharedFields(c *Check, rule string) {
 		funcs = append(funcs, fn)
 		for _, b := range fn.Blocks {
 			for _, in := range b.Instrs {
+				// package-level variables: every instruction using the global's
+				// address directly (load, store, map update through the load)
+				for _, op := range in.Operands(nil) {
+					gv, ok := (*op).(*ssa.Global)
+					if !ok || gv.Pkg == nil || !strings.HasPrefix(gv.Pkg.Pkg.Path(), modPath) {
+						continue
+					}
+					et := gv.Type().Underlying().(*types.Pointer).Elem()
+					if sfSelfSynchronised(et) {
+						continue
+					}
+					if _, isFA := in.(*ssa.FieldAddr); isFA {
+						if _, isStruct := sfNamedStruct(et); isStruct {
+							continue // handled as a field of its struct type below
+						}
+					}
+					k := sfKey{"var " + shortPkg(gv.Pkg.Pkg.Path()), gv.Name()}
+					a := sfAccess{fn: fn, in: in, fresh: fn.Name() == "init" || strings.HasPrefix(fn.Name(), "init#")}
+					switch x := in.(type) {
+					case *ssa.Store:
+						a.write = x.Addr == ssa.Value(gv)
+					case *ssa.UnOp:
+						switch x.Type().Underlying().(type) {
+						case *types.Map, *types.Slice:
+							a.write = sfIsWrite(x, 1)
+						}
+					default:
+						if v, ok := in.(ssa.Value); ok {
+							a.write = sfIsWrite(v, 1)
+						}
+					}
+					nGlobals[k] = true
+					acc[k] = append(acc[k], a)
+				}
 				var base ssa.Value
 				var idx int
 				var val ssa.Value
@@ -624,7 +659,7 @@ func ruleSharedFields(c *Check, rule string) {
 	}
 	sort.Strings(lockedNames)
 	if bad == 0 {
-		c.Ok(rule, "shared-fields", fmt.Sprintf("%d fields of repository struct types examined in %d functions (%d goroutine roots): %d are never written after construction, %d are written but confined to one goroutine (or ordered by start-up), %d are shared between goroutines and every access holds a common lock: %s", nFields, len(funcs), len(rootOf), nImmutable, nConfined, nLocked, strings.Join(lockedNames, " ")), "")
+		c.Ok(rule, "shared-fields", fmt.Sprintf("%d fields of component struct types and package-level variables (%d) examined in %d functions (%d goroutine roots): %d are never written after construction, %d are written but confined to one goroutine (or ordered by start-up), %d are shared between goroutines and every access holds a common lock: %s", nFields, len(nGlobals), len(funcs), len(rootOf), nImmutable, nConfined, nLocked, strings.Join(lockedNames, " ")), "")
 	}
 	c.Floor(rule, nFields, 100, "struct fields examined")
 	c.Floor(rule, nLocked, 8, "shared fields with a common lock")
